@@ -82,29 +82,36 @@ def run_case(ctx, g, rng):
     # by mounting the blueprint / router on an app of the user's own
     entry = rng.choice(["app", "app", "mounted"])
     S.counters[f"wl:entry-point:{entry}"] += 1
-    if entry == "app":
-        fl = get_flask_app(conv).test_client()
-        fa = TestClient(get_fastapi_app(conv))
-    else:
-        import fastapi
-        import flask
-        from curies.resolver_service import get_fastapi_router, get_flask_blueprint
+    evaluated("resolver:app-can-be-built")
+    try:
+        if entry == "app":
+            fl = get_flask_app(conv).test_client()
+            fa = TestClient(get_fastapi_app(conv))
+        else:
+            import fastapi
+            import flask
+            from curies.resolver_service import get_fastapi_router, get_flask_blueprint
 
-        fapp_ = flask.Flask("users_own_app")
-        fapp_.register_blueprint(get_flask_blueprint(conv))
-        aapp_ = fastapi.FastAPI()
-        aapp_.include_router(get_fastapi_router(conv))
-        if rng.random() < 0.6:
-            # a second resolver, for another converter, mounted on the same apps under /alt: the first one still
-            # answers for its own converter
-            shadow = recs[0].prefix if recs else "GO"
-            d2 = rng.choice([x for x in (":", "/", "_", "::") if x not in shadow and (x != d or rng.random() < 0.3)] or [d])
-            other = api.Converter.from_prefix_map({"zzalt": "http://zz.alt/", shadow: "http://zz.alt/shadow_"}, delimiter=d2)
-            fapp_.register_blueprint(get_flask_blueprint(other), url_prefix="/alt", name="alt")
-            aapp_.include_router(get_fastapi_router(other), prefix="/alt")
-            S.counters["wl:second-resolver-mounted-on-the-same-app"] += 1
-        fl = fapp_.test_client()
-        fa = TestClient(aapp_, raise_server_exceptions=False)
+            fapp_ = flask.Flask("users_own_app")
+            fapp_.register_blueprint(get_flask_blueprint(conv))
+            aapp_ = fastapi.FastAPI()
+            aapp_.include_router(get_fastapi_router(conv))
+            if rng.random() < 0.6:
+                # a second resolver, for another converter, mounted on the same apps under /alt: the first one still
+                # answers for its own converter
+                shadow = recs[0].prefix if recs else "GO"
+                d2 = rng.choice([x for x in (":", "/", "_", "::") if x not in shadow and (x != d or rng.random() < 0.3)] or [d])
+                other = api.Converter.from_prefix_map({"zzalt": "http://zz.alt/", shadow: "http://zz.alt/shadow_"}, delimiter=d2)
+                fapp_.register_blueprint(get_flask_blueprint(other), url_prefix="/alt", name="alt")
+                aapp_.include_router(get_fastapi_router(other), prefix="/alt")
+                S.counters["wl:second-resolver-mounted-on-the-same-app"] += 1
+            fl = fapp_.test_client()
+            fa = TestClient(aapp_, raise_server_exceptions=False)
+    except Exception as e:  # noqa: BLE001
+        # "a resolver app built from any converter": one that cannot be built answers nothing at all
+        violation(["C17"], "resolver:app-can-be-built", "resolver-app-cannot-be-built-for-this-converter", entry_point=entry, observed=e,
+                  records=[spec.rec_dict(r) for r in recs], delimiter=d, built_by=how)
+        return
     known = [p for r in recs for p in spec.all_p(r)]
     w0 = {"records": [spec.rec_dict(r) for r in recs], "delimiter": d}
     late_prefix, late_syn = names.pop(), names.pop()
